@@ -72,6 +72,26 @@ def run(ctx):
         kid = (code << 28) | (rng.randrange(1, 0xFF) << 16) | rng.randrange(0xF000, 0xFFFF)
         return {"byname": False, "name": "", "key": kid, "t": "X%03d" % size, "v": repr(rng.randbytes(size)) if v is None else v}
 
+    def near_miss(e):
+        """an UNDOCUMENTED key derived from a documented one: same group/item, other size code (or item/group off by one)"""
+        k = key_int(e)
+        docs = near_miss.docs
+        for _ in range(20):
+            r = rng.random()
+            if r < 0.6:
+                c = rng.choice([x for x in (1, 2, 3, 4, 5) if x != (k >> 28) & 7])
+                k2 = (k & 0x8FFFFFFF) | (c << 28)
+            elif r < 0.8:
+                k2 = k ^ (1 << rng.randrange(0, 12))
+            else:
+                k2 = k ^ (1 << rng.randrange(16, 24))
+            if k2 not in docs and 1 <= (k2 >> 28) & 7 <= 5:
+                size = {1: 1, 2: 1, 3: 2, 4: 4, 5: 8}[(k2 >> 28) & 7]
+                return {"byname": False, "name": "", "key": k2, "t": "X%03d" % size, "v": repr(rng.randbytes(size))}
+        return unknown_item(rng.randrange(1, 6))
+
+    near_miss.docs = {key_int(e) for e in db}
+
     def gen_lookup():
         for e in db:
             yield ("lookup", {"dir": "name2key", "name": e["n"]})
@@ -80,6 +100,8 @@ def run(ctx):
             yield ("lookup", {"dir": "name2key", "name": n})
         for _ in range(400 if not ctx.thorough else 5000):
             yield ("lookup", {"dir": "key2name", "key": unknown_item(rng.randrange(1, 6))["key"]})
+        for e in (db if ctx.thorough else rng.sample(db, 400)):
+            yield ("lookup", {"dir": "key2name", "key": near_miss(e)["key"]})
 
     def gen_helpers():
         for e in db:
@@ -95,7 +117,7 @@ def run(ctx):
                 its = [item(e, rng.random() < 0.5, rng.choice(boundary_values(e["t"], rng))) for e in es]
                 for k in range(len(its)):
                     if rng.random() < 0.15:
-                        its[k] = unknown_item(rng.randrange(1, 6))
+                        its[k] = unknown_item(rng.randrange(1, 6)) if rng.random() < 0.5 else near_miss(rng.choice(db))
                 yield ("helper", {"fn": "config_set", "a": rng.randrange(0, 8), "b": rng.randrange(0, 4), "items": its})
                 yield ("helper", {"fn": "config_del", "a": rng.randrange(0, 8), "b": rng.randrange(0, 4), "items": its})
                 yield ("helper", {"fn": "config_poll", "a": rng.choice((0, 1, 2, 7)), "b": rng.choice((0, 1, 255, 256, 65535)), "items": its})
